@@ -17,6 +17,7 @@ pub mod chan;
 pub mod rwlock;
 pub mod flag;
 pub mod fdreuse;
+pub mod ioshared;
 
 pub fn lookup(name: &str) -> Option<Builder> {
     match name {
@@ -40,6 +41,7 @@ pub fn lookup(name: &str) -> Option<Builder> {
         "rwlock" => Some(rwlock::build),
         "flag" => Some(flag::build),
         "fdreuse" => Some(fdreuse::build),
+        "ioshared" => Some(ioshared::build),
         _ => None,
     }
 }
